@@ -98,6 +98,18 @@ def check_witness(data, show=False):
     return res
 
 
+def _box2(tier):
+    """One full block followed by EVERY partial last block, medium/large periods: the reversal of
+    the partial block runs first and may leave state behind that the full block then meets."""
+    P0, P1, BS = (17, 40, (2, 3, 4)) if tier == "quick" else (13, 64, (1, 2, 3, 4, 5, 6))
+    for p in range(P0, P1 + 1):
+        for b in BS:
+            for tr in ("maximum", "revolve"):
+                for L in range(1, p):
+                    yield {"cls": "TwoLevel", "period": p, "b": b, "storage": "RAM" if (p + L) % 2 else "DISK", "traj": tr, "n": p + L,
+                           "passes": 1}
+
+
 def run(prop, args):
     rep = R.Report(prop, args, RULE)
     if args.replay:
@@ -113,11 +125,14 @@ def run(prop, args):
             if O.opt_binomial_search(n, s) != O.gw_total(n, s):
                 R.harness_error("closed form != search at n=%d s=%d" % (n, s))
     box = list(_box(tier))
-    res = R.pmap(_case, box)
-    count = 120 if tier == "quick" else 2000
+    box2 = list(_box2(tier))
+    res = R.pmap(_case, box + box2)
+    count = 500 if tier == "quick" else 6000
     res += [x for part in R.pmap(_gen, [(tier, args.seed, k, count) for k in range(16)], chunksize=1) for x in part]
     rep.exhaustive = [{"box": "period<=%d, binomial_snapshots<=%d, both storages, both trajectories, n<=%d, passes 1..3" % ((6, 4, 24) if tier == "quick" else (12, 6, 72)),
-                       "cases": len(box), "exhaustive": True}]
+                       "cases": len(box), "exhaustive": True},
+                      {"box": "one full block + every partial last block: period %d..%d, binomial_snapshots in %s, both trajectories" % (
+                          (17, 40, [2, 3, 4]) if tier == "quick" else (13, 64, [1, 2, 3, 4, 5, 6])), "cases": len(box2), "exhaustive": True}]
     blocks = 0
     for out in res:
         cfg = out["cfg"]
